@@ -23,8 +23,13 @@ pub fn case<const N: usize, const CODE: u32, const WORDS: usize>(
     let af = build::<N>(&g, pres);
     for q in queries.iter() {
         let sh = Rc::new(Shared::default());
-        if max_fault > 0 {
-            sh.fail_at.set(1 + nd::below(max_fault));
+        if max_fault >= 100 {
+            // 100 + k: the fault is permanent (the backend is dead from the chosen call on)
+            sh.sticky_fault.set(true);
+            // a single position stays a constant (a symbolic value constrained to one value is not propagated by CBMC)
+            sh.fail_at.set(if max_fault == 101 { 1 } else { 1 + nd::below(max_fault - 100) });
+        } else if max_fault > 0 {
+            sh.fail_at.set(if max_fault == 1 { 1 } else { 1 + nd::below(max_fault) });
         }
         let o = query::<N, WORDS>(&af, sp, pres, sem, enc, kind, q, cert, checks, &sh);
         std::mem::forget(o);
@@ -47,6 +52,35 @@ macro_rules! static_harness {
     };
 }
 
+/// C17 harnesses: as `static_harness!`, with `SolvingResult::unwrap_model` replaced by a stub that ends the path on
+/// `Unknown` (the documented panic = the abort the property asks for), so that the harness has no check that is expected
+/// to fail and runs as one SAT query.  That the real `unwrap_model` panics on `Unknown` is `c17_q_pp_unwrap_unknown_aborts`.
+macro_rules! static_fault_harness {
+    ($name:ident, n=$n:literal, words=$words:literal, unwind=$unwind:literal, $sem:expr, $enc:expr, $kind:expr, $pres:expr,
+     cert=$cert:expr, $checks:expr, qs=[$([$($q:literal),*]),*], fault=$fault:expr, codes=[$code:literal]) => {
+        #[cfg_attr(kani, kani::proof)]
+        #[cfg_attr(kani, kani::stub(alloc::fmt::format, crate::util::fmt_stub))]
+        #[cfg_attr(kani, kani::stub(std::backtrace::Backtrace::capture, crate::util::bt_stub))]
+        #[cfg_attr(kani, kani::stub(<anyhow::Error as std::ops::Drop>::drop, crate::util::noop_err_drop))]
+        #[cfg_attr(kani, kani::stub(crustabri::sat::SolvingResult::unwrap_model, crate::util::unwrap_model_stub))]
+        #[cfg_attr(kani, kani::unwind($unwind))]
+        pub fn $name() {
+            let sp = const { spec_of::<$n>($sem, $code) };
+            case::<$n, $code, $words>(&sp, $sem, $enc, $kind, $pres, $cert, $checks, &[$(&[$($q),*][..]),*], $fault);
+        }
+    };
+}
+
+
+/// the real `unwrap_model`, not stubbed: `Unknown` never comes back as a value (per-property mode: the panic is expected)
+#[cfg_attr(kani, kani::proof)]
+#[cfg_attr(kani, kani::stub(alloc::fmt::format, crate::util::fmt_stub))]
+pub fn c17_q_pp_unwrap_unknown_aborts() {
+    let r = crustabri::sat::SolvingResult::Unknown.unwrap_model();
+    std::mem::forget(r);
+    crate::require!(false, "C17: SolvingResult::unwrap_model returned a value for Unknown");
+}
+
 // GENERATED-BELOW (lib/gen_harnesses.py)
 static_harness!(c01_x_st_se_def_n2g0_x_pl, n=2, words=1, unwind=6, Sem::ST, Enc::Default, Kind::SE, Pres::Plain, cert=false, ANSWER, qs=[[]], fault=0, codes=[0]);
 static_harness!(c01_q_st_se_def_n2g6_x_pl, n=2, words=1, unwind=6, Sem::ST, Enc::Default, Kind::SE, Pres::Plain, cert=false, ANSWER, qs=[[]], fault=0, codes=[6]);
@@ -62,12 +96,10 @@ static_harness!(c01_t_st_se_def_n2g9_x_pl, n=2, words=1, unwind=6, Sem::ST, Enc:
 static_harness!(c01_t_st_se_def_n2g2_x_pl, n=2, words=1, unwind=6, Sem::ST, Enc::Default, Kind::SE, Pres::Plain, cert=false, ANSWER, qs=[[]], fault=0, codes=[2]);
 static_harness!(c01_t_st_se_def_n2g7_x_pl, n=2, words=1, unwind=6, Sem::ST, Enc::Default, Kind::SE, Pres::Plain, cert=false, ANSWER, qs=[[]], fault=0, codes=[7]);
 static_harness!(c01_t_st_se_def_n2g11_x_pl, n=2, words=1, unwind=6, Sem::ST, Enc::Default, Kind::SE, Pres::Plain, cert=false, ANSWER, qs=[[]], fault=0, codes=[11]);
-static_harness!(c01_x_st_se_def_n2g0_x_du, n=2, words=1, unwind=6, Sem::ST, Enc::Default, Kind::SE, Pres::Dup, cert=false, ANSWER, qs=[[]], fault=0, codes=[0]);
 static_harness!(c01_t_st_se_def_n2g6_x_s1, n=2, words=1, unwind=6, Sem::ST, Enc::Default, Kind::SE, Pres::SparseFirst, cert=false, ANSWER, qs=[[]], fault=0, codes=[6]);
 static_harness!(c01_t_st_se_def_n2g14_x_s2, n=2, words=1, unwind=6, Sem::ST, Enc::Default, Kind::SE, Pres::SparseMid, cert=false, ANSWER, qs=[[]], fault=0, codes=[14]);
 static_harness!(c01_t_st_se_def_n2g10_x_du, n=2, words=1, unwind=6, Sem::ST, Enc::Default, Kind::SE, Pres::Dup, cert=false, ANSWER, qs=[[]], fault=0, codes=[10]);
 static_harness!(c01_t_st_se_def_n3g98_x_pl, n=3, words=1, unwind=7, Sem::ST, Enc::Default, Kind::SE, Pres::Plain, cert=false, ANSWER, qs=[[]], fault=0, codes=[98]);
-static_harness!(c01_x_st_se_def_n3g8_x_pl, n=3, words=1, unwind=7, Sem::ST, Enc::Default, Kind::SE, Pres::Plain, cert=false, ANSWER, qs=[[]], fault=0, codes=[8]);
 static_harness!(c01_t_st_se_def_n3g290_x_pl, n=3, words=1, unwind=7, Sem::ST, Enc::Default, Kind::SE, Pres::Plain, cert=false, ANSWER, qs=[[]], fault=0, codes=[290]);
 static_harness!(c01_t_st_se_def_n3g34_x_pl, n=3, words=1, unwind=7, Sem::ST, Enc::Default, Kind::SE, Pres::Plain, cert=false, ANSWER, qs=[[]], fault=0, codes=[34]);
 static_harness!(c01_t_gr_se_def_n3g42_x_du, n=3, words=1, unwind=7, Sem::GR, Enc::Default, Kind::SE, Pres::Dup, cert=false, ANSWER, qs=[[]], fault=0, codes=[42]);
@@ -176,11 +208,8 @@ static_harness!(c04_q_st_ds_def_n2g10_a_pl_cert, n=2, words=1, unwind=6, Sem::ST
 static_harness!(c04_q_st_ds_def_n2g2_b_pl_cert, n=2, words=1, unwind=6, Sem::ST, Enc::Default, Kind::DS, Pres::Plain, cert=true, CERT, qs=[[1]], fault=0, codes=[2]);
 static_harness!(c04_x_co_dc_aux_n2g6_a_pl_cert, n=2, words=1, unwind=7, Sem::CO, Enc::AuxCo, Kind::DC, Pres::Plain, cert=true, CERT, qs=[[0]], fault=0, codes=[6]);
 static_harness!(c04_x_co_dc_aux_n2g14_a_s1_cert, n=2, words=1, unwind=7, Sem::CO, Enc::AuxCo, Kind::DC, Pres::SparseFirst, cert=true, CERT, qs=[[0]], fault=0, codes=[14]);
-static_harness!(c04_x_co_dc_exp_n2g0_b_pl_cert, n=2, words=1, unwind=6, Sem::CO, Enc::ExpCo, Kind::DC, Pres::Plain, cert=true, CERT, qs=[[1]], fault=0, codes=[0]);
 static_harness!(c04_q_gr_ds_def_n2g2_b_pl_cert, n=2, words=1, unwind=6, Sem::GR, Enc::Default, Kind::DS, Pres::Plain, cert=true, CERT, qs=[[1]], fault=0, codes=[2]);
 static_harness!(c04_q_gr_dc_def_n2g2_a_s2_cert, n=2, words=1, unwind=6, Sem::GR, Enc::Default, Kind::DC, Pres::SparseMid, cert=true, CERT, qs=[[0]], fault=0, codes=[2]);
-static_harness!(c04_x_co_dc_aux_n3g0_a_pl_cert, n=3, words=2, unwind=9, Sem::CO, Enc::AuxCo, Kind::DC, Pres::Plain, cert=true, CERT, qs=[[0]], fault=0, codes=[0]);
-static_harness!(c04_x_st_dc_def_n3g8_c_pl_cert, n=3, words=1, unwind=7, Sem::ST, Enc::Default, Kind::DC, Pres::Plain, cert=true, CERT, qs=[[2]], fault=0, codes=[8]);
 static_harness!(c04_t_st_dc_def_n2g2_a_pl_cert, n=2, words=1, unwind=6, Sem::ST, Enc::Default, Kind::DC, Pres::Plain, cert=true, CERT, qs=[[0]], fault=0, codes=[2]);
 static_harness!(c04_t_st_ds_def_n2g2_a_pl_cert, n=2, words=1, unwind=6, Sem::ST, Enc::Default, Kind::DS, Pres::Plain, cert=true, CERT, qs=[[0]], fault=0, codes=[2]);
 static_harness!(c04_t_st_dc_def_n2g2_b_pl_cert, n=2, words=1, unwind=6, Sem::ST, Enc::Default, Kind::DC, Pres::Plain, cert=true, CERT, qs=[[1]], fault=0, codes=[2]);
@@ -207,13 +236,11 @@ static_harness!(c07_x_co_dc_aux_n2g0_ab_pl_cert, n=2, words=1, unwind=7, Sem::CO
 static_harness!(c07_x_co_dc_aux_n2g14_ba_pl_cert, n=2, words=1, unwind=7, Sem::CO, Enc::AuxCo, Kind::DC, Pres::Plain, cert=true, CERT, qs=[[1, 0]], fault=0, codes=[14]);
 static_harness!(c07_q_co_dc_aux_n2g6_ab_pl, n=2, words=1, unwind=7, Sem::CO, Enc::AuxCo, Kind::DC, Pres::Plain, cert=false, ANSWER, qs=[[0, 1]], fault=0, codes=[6]);
 static_harness!(c07_q_st_dc_def_n2g2_ba_pl_cert, n=2, words=1, unwind=6, Sem::ST, Enc::Default, Kind::DC, Pres::Plain, cert=true, CERT, qs=[[1, 0]], fault=0, codes=[2]);
-static_harness!(c07_x_st_dc_def_n2g0_ab_pl_cert, n=2, words=1, unwind=6, Sem::ST, Enc::Default, Kind::DC, Pres::Plain, cert=true, CERT, qs=[[0, 1]], fault=0, codes=[0]);
 static_harness!(c07_q_st_dc_def_n2g9_aa_pl_cert, n=2, words=1, unwind=6, Sem::ST, Enc::Default, Kind::DC, Pres::Plain, cert=true, CERT, qs=[[0, 0]], fault=0, codes=[9]);
 static_harness!(c07_q_st_dc_def_n2g10_ba_pl_cert, n=2, words=1, unwind=6, Sem::ST, Enc::Default, Kind::DC, Pres::Plain, cert=true, CERT, qs=[[1, 0]], fault=0, codes=[10]);
 static_harness!(c07_q_st_ds_def_n2g6_ab_pl_cert, n=2, words=1, unwind=6, Sem::ST, Enc::Default, Kind::DS, Pres::Plain, cert=true, CERT, qs=[[0, 1]], fault=0, codes=[6]);
 static_harness!(c07_q_st_ds_def_n2g2_bb_pl_cert, n=2, words=1, unwind=6, Sem::ST, Enc::Default, Kind::DS, Pres::Plain, cert=true, CERT, qs=[[1, 1]], fault=0, codes=[2]);
 static_harness!(c07_q_gr_ds_def_n2g2_ba_pl_cert, n=2, words=1, unwind=6, Sem::GR, Enc::Default, Kind::DS, Pres::Plain, cert=true, CERT, qs=[[1, 0]], fault=0, codes=[2]);
-static_harness!(c07_x_st_dc_def_n3g8_ac_pl_cert, n=3, words=1, unwind=7, Sem::ST, Enc::Default, Kind::DC, Pres::Plain, cert=true, CERT, qs=[[0, 2]], fault=0, codes=[8]);
 static_harness!(c07_q_st_dc_def_n3g2_bc_pl, n=3, words=1, unwind=7, Sem::ST, Enc::Default, Kind::DC, Pres::Plain, cert=false, ANSWER, qs=[[1, 2]], fault=0, codes=[2]);
 static_harness!(c07_t_st_dc_def_n2g8_ab_pl, n=2, words=1, unwind=6, Sem::ST, Enc::Default, Kind::DC, Pres::Plain, cert=false, ANSWER, qs=[[0, 1]], fault=0, codes=[8]);
 static_harness!(c07_t_st_ds_def_n2g8_ab_pl_cert, n=2, words=1, unwind=6, Sem::ST, Enc::Default, Kind::DS, Pres::Plain, cert=true, CERT, qs=[[0, 1]], fault=0, codes=[8]);
@@ -237,18 +264,18 @@ static_harness!(c16_t_st_dc_def_n2g8_ba_pl_cert, n=2, words=1, unwind=6, Sem::ST
 static_harness!(c16_t_co_dc_hyb_n2g6_b_pl, n=2, words=1, unwind=6, Sem::CO, Enc::Hybrid, Kind::DC, Pres::Plain, cert=false, HEADER, qs=[[1]], fault=0, codes=[6]);
 static_harness!(c16_t_st_dc_def_n3g42_c_pl_cert, n=3, words=1, unwind=7, Sem::ST, Enc::Default, Kind::DC, Pres::Plain, cert=true, HEADER, qs=[[2]], fault=0, codes=[42]);
 static_harness!(c16_t_st_dc_def_n3g8_ac_pl, n=3, words=1, unwind=7, Sem::ST, Enc::Default, Kind::DC, Pres::Plain, cert=false, HEADER, qs=[[0, 2]], fault=0, codes=[8]);
-static_harness!(c17_q_st_dc_def_n2g6_a_pl_cert_f2, n=2, words=1, unwind=6, Sem::ST, Enc::Default, Kind::DC, Pres::Plain, cert=true, FAULT, qs=[[0]], fault=2, codes=[6]);
-static_harness!(c17_q_st_dc_def_n2g0_ab_pl_f3, n=2, words=1, unwind=6, Sem::ST, Enc::Default, Kind::DC, Pres::Plain, cert=false, FAULT, qs=[[0, 1]], fault=3, codes=[0]);
-static_harness!(c17_q_co_dc_aux_n2g2_b_pl_f2, n=2, words=1, unwind=7, Sem::CO, Enc::AuxCo, Kind::DC, Pres::Plain, cert=false, FAULT, qs=[[1]], fault=2, codes=[2]);
-static_harness!(c17_q_st_se_def_n2g6_x_pl_f2, n=2, words=1, unwind=6, Sem::ST, Enc::Default, Kind::SE, Pres::Plain, cert=false, FAULT, qs=[[]], fault=2, codes=[6]);
-static_harness!(c17_q_st_ds_def_n2g0_a_pl_cert_f3, n=2, words=1, unwind=6, Sem::ST, Enc::Default, Kind::DS, Pres::Plain, cert=true, FAULT, qs=[[0]], fault=3, codes=[0]);
-static_harness!(c17_q_st_dc_def_n2g2_b_pl_cert_f2, n=2, words=1, unwind=6, Sem::ST, Enc::Default, Kind::DC, Pres::Plain, cert=true, FAULT, qs=[[1]], fault=2, codes=[2]);
-static_harness!(c17_q_st_dc_def_n2g10_a_pl_f2, n=2, words=1, unwind=6, Sem::ST, Enc::Default, Kind::DC, Pres::Plain, cert=false, FAULT, qs=[[0]], fault=2, codes=[10]);
-static_harness!(c17_t_st_dc_def_n2g2_a_pl_f2, n=2, words=1, unwind=6, Sem::ST, Enc::Default, Kind::DC, Pres::Plain, cert=false, FAULT, qs=[[0]], fault=2, codes=[2]);
-static_harness!(c17_t_st_dc_def_n2g6_b_pl_f2, n=2, words=1, unwind=6, Sem::ST, Enc::Default, Kind::DC, Pres::Plain, cert=false, FAULT, qs=[[1]], fault=2, codes=[6]);
-static_harness!(c17_t_co_dc_exp_n2g14_a_pl_cert_f2, n=2, words=1, unwind=6, Sem::CO, Enc::ExpCo, Kind::DC, Pres::Plain, cert=true, FAULT, qs=[[0]], fault=2, codes=[14]);
-static_harness!(c17_t_st_ds_def_n2g6_b_pl_f2, n=2, words=1, unwind=6, Sem::ST, Enc::Default, Kind::DS, Pres::Plain, cert=false, FAULT, qs=[[1]], fault=2, codes=[6]);
-static_harness!(c17_t_st_se_def_n2g0_x_pl_f3, n=2, words=1, unwind=6, Sem::ST, Enc::Default, Kind::SE, Pres::Plain, cert=false, FAULT, qs=[[]], fault=3, codes=[0]);
+static_fault_harness!(c17_q_st_dc_def_n2g6_a_pl_cert_f2, n=2, words=1, unwind=6, Sem::ST, Enc::Default, Kind::DC, Pres::Plain, cert=true, FAULT, qs=[[0]], fault=2, codes=[6]);
+static_fault_harness!(c17_q_st_dc_def_n2g2_b_pl_cert_f2, n=2, words=1, unwind=6, Sem::ST, Enc::Default, Kind::DC, Pres::Plain, cert=true, FAULT, qs=[[1]], fault=2, codes=[2]);
+static_fault_harness!(c17_q_co_dc_aux_n2g2_b_pl_f2, n=2, words=1, unwind=7, Sem::CO, Enc::AuxCo, Kind::DC, Pres::Plain, cert=false, FAULT, qs=[[1]], fault=2, codes=[2]);
+static_fault_harness!(c17_t_st_dc_def_n2g0_ab_pl_f3, n=2, words=1, unwind=6, Sem::ST, Enc::Default, Kind::DC, Pres::Plain, cert=false, FAULT, qs=[[0, 1]], fault=3, codes=[0]);
+static_fault_harness!(c17_q_st_se_def_n2g6_x_pl_f2, n=2, words=1, unwind=6, Sem::ST, Enc::Default, Kind::SE, Pres::Plain, cert=false, FAULT, qs=[[]], fault=2, codes=[6]);
+static_fault_harness!(c17_t_st_ds_def_n2g0_a_pl_cert_f3, n=2, words=1, unwind=6, Sem::ST, Enc::Default, Kind::DS, Pres::Plain, cert=true, FAULT, qs=[[0]], fault=3, codes=[0]);
+static_fault_harness!(c17_t_st_dc_def_n2g10_a_pl_f2, n=2, words=1, unwind=6, Sem::ST, Enc::Default, Kind::DC, Pres::Plain, cert=false, FAULT, qs=[[0]], fault=2, codes=[10]);
+static_fault_harness!(c17_t_st_dc_def_n2g2_a_pl_f2, n=2, words=1, unwind=6, Sem::ST, Enc::Default, Kind::DC, Pres::Plain, cert=false, FAULT, qs=[[0]], fault=2, codes=[2]);
+static_fault_harness!(c17_t_st_dc_def_n2g6_b_pl_f2, n=2, words=1, unwind=6, Sem::ST, Enc::Default, Kind::DC, Pres::Plain, cert=false, FAULT, qs=[[1]], fault=2, codes=[6]);
+static_fault_harness!(c17_t_co_dc_exp_n2g14_a_pl_cert_f2, n=2, words=1, unwind=6, Sem::CO, Enc::ExpCo, Kind::DC, Pres::Plain, cert=true, FAULT, qs=[[0]], fault=2, codes=[14]);
+static_fault_harness!(c17_q_st_ds_def_n2g6_b_pl_f2, n=2, words=1, unwind=6, Sem::ST, Enc::Default, Kind::DS, Pres::Plain, cert=false, FAULT, qs=[[1]], fault=2, codes=[6]);
+static_fault_harness!(c17_t_st_se_def_n2g0_x_pl_f3, n=2, words=1, unwind=6, Sem::ST, Enc::Default, Kind::SE, Pres::Plain, cert=false, FAULT, qs=[[]], fault=3, codes=[0]);
 static_harness!(c18_q_st_dc_def_n2g0_ab_pl_cert, n=2, words=1, unwind=6, Sem::ST, Enc::Default, Kind::DC, Pres::Plain, cert=true, CALLS, qs=[[0, 1]], fault=0, codes=[0]);
 static_harness!(c18_q_st_dc_def_n2g6_a_pl_cert, n=2, words=1, unwind=6, Sem::ST, Enc::Default, Kind::DC, Pres::Plain, cert=true, CALLS, qs=[[0]], fault=0, codes=[6]);
 static_harness!(c18_q_st_dc_def_n2g10_b_pl_cert, n=2, words=1, unwind=6, Sem::ST, Enc::Default, Kind::DC, Pres::Plain, cert=true, CALLS, qs=[[1]], fault=0, codes=[10]);
@@ -409,11 +436,11 @@ static_harness!(c03_t_id_ds_exp_n2g2_b_pl, n=2, words=1, unwind=7, Sem::ID, Enc:
 static_harness!(c04_t_id_ds_exp_n2g2_b_pl_cert, n=2, words=1, unwind=7, Sem::ID, Enc::ExpCo, Kind::DS, Pres::Plain, cert=true, CERT, qs=[[1]], fault=0, codes=[2]);
 static_harness!(c02_t_id_dc_exp_n2g2_b_pl, n=2, words=1, unwind=7, Sem::ID, Enc::ExpCo, Kind::DC, Pres::Plain, cert=false, ANSWER, qs=[[1]], fault=0, codes=[2]);
 static_harness!(c04_t_id_dc_exp_n2g2_b_pl_cert, n=2, words=1, unwind=7, Sem::ID, Enc::ExpCo, Kind::DC, Pres::Plain, cert=true, CERT, qs=[[1]], fault=0, codes=[2]);
-static_harness!(c17_q_pr_se_adm_n2g2_x_pl_f1, n=2, words=2, unwind=9, Sem::PR, Enc::AuxAdm, Kind::SE, Pres::Plain, cert=false, FAULT, qs=[[]], fault=1, codes=[2]);
-static_harness!(c17_t_pr_ds_adm_n2g2_b_pl_cert_f2, n=2, words=2, unwind=9, Sem::PR, Enc::AuxAdm, Kind::DS, Pres::Plain, cert=true, FAULT, qs=[[1]], fault=2, codes=[2]);
-static_harness!(c17_q_sst_se_aux_n2g2_x_pl_f1, n=2, words=4, unwind=10, Sem::SST, Enc::AuxCo, Kind::SE, Pres::Plain, cert=false, FAULT, qs=[[]], fault=1, codes=[2]);
-static_harness!(c17_t_sst_ds_aux_n2g2_b_pl_cert_f2, n=2, words=4, unwind=10, Sem::SST, Enc::AuxCo, Kind::DS, Pres::Plain, cert=true, FAULT, qs=[[1]], fault=2, codes=[2]);
-static_harness!(c17_t_stg_se_ecf_n2g2_x_pl_f1, n=2, words=1, unwind=8, Sem::STG, Enc::ExpCf, Kind::SE, Pres::Plain, cert=false, FAULT, qs=[[]], fault=1, codes=[2]);
-static_harness!(c17_t_stg_ds_ecf_n2g2_b_pl_cert_f2, n=2, words=1, unwind=8, Sem::STG, Enc::ExpCf, Kind::DS, Pres::Plain, cert=true, FAULT, qs=[[1]], fault=2, codes=[2]);
-static_harness!(c17_t_id_se_aux_n2g2_x_pl_f1, n=2, words=2, unwind=9, Sem::ID, Enc::AuxCo, Kind::SE, Pres::Plain, cert=false, FAULT, qs=[[]], fault=1, codes=[2]);
-static_harness!(c17_t_id_ds_aux_n2g2_b_pl_cert_f2, n=2, words=2, unwind=9, Sem::ID, Enc::AuxCo, Kind::DS, Pres::Plain, cert=true, FAULT, qs=[[1]], fault=2, codes=[2]);
+static_fault_harness!(c17_q_pr_se_adm_n2g2_x_pl_f1s, n=2, words=2, unwind=9, Sem::PR, Enc::AuxAdm, Kind::SE, Pres::Plain, cert=false, FAULT, qs=[[]], fault=101, codes=[2]);
+static_fault_harness!(c17_t_pr_ds_adm_n2g2_b_pl_cert_f1s, n=2, words=2, unwind=9, Sem::PR, Enc::AuxAdm, Kind::DS, Pres::Plain, cert=true, FAULT, qs=[[1]], fault=101, codes=[2]);
+static_fault_harness!(c17_t_sst_se_aux_n2g2_x_pl_f1s, n=2, words=4, unwind=10, Sem::SST, Enc::AuxCo, Kind::SE, Pres::Plain, cert=false, FAULT, qs=[[]], fault=101, codes=[2]);
+static_fault_harness!(c17_t_sst_ds_aux_n2g2_b_pl_cert_f1s, n=2, words=4, unwind=10, Sem::SST, Enc::AuxCo, Kind::DS, Pres::Plain, cert=true, FAULT, qs=[[1]], fault=101, codes=[2]);
+static_fault_harness!(c17_t_stg_se_ecf_n2g2_x_pl_f1s, n=2, words=1, unwind=8, Sem::STG, Enc::ExpCf, Kind::SE, Pres::Plain, cert=false, FAULT, qs=[[]], fault=101, codes=[2]);
+static_fault_harness!(c17_t_stg_ds_ecf_n2g2_b_pl_cert_f1s, n=2, words=1, unwind=8, Sem::STG, Enc::ExpCf, Kind::DS, Pres::Plain, cert=true, FAULT, qs=[[1]], fault=101, codes=[2]);
+static_fault_harness!(c17_t_id_se_aux_n2g2_x_pl_f1s, n=2, words=2, unwind=9, Sem::ID, Enc::AuxCo, Kind::SE, Pres::Plain, cert=false, FAULT, qs=[[]], fault=101, codes=[2]);
+static_fault_harness!(c17_t_id_ds_aux_n2g2_b_pl_cert_f1s, n=2, words=2, unwind=9, Sem::ID, Enc::AuxCo, Kind::DS, Pres::Plain, cert=true, FAULT, qs=[[1]], fault=101, codes=[2]);
